@@ -99,17 +99,19 @@ pub struct FateCopy {
     pub flips: Vec<u32>,
     /// Truncate to this many bytes.
     pub trunc: Option<u32>,
+    /// Deliver these bytes instead (a middlebox re-encoded the frame).
+    pub replace: Option<Vec<u8>>,
 }
 
 impl Fate {
     pub fn deliver(delay_us: u64) -> Self {
-        Self { copies: vec![FateCopy { delay_us, flips: Vec::new(), trunc: None }] }
+        Self { copies: vec![FateCopy { delay_us, flips: Vec::new(), trunc: None, replace: None }] }
     }
     pub fn dropped() -> Self {
         Self { copies: Vec::new() }
     }
     pub fn is_plain(&self) -> bool {
-        self.copies.len() == 1 && self.copies[0].flips.is_empty() && self.copies[0].trunc.is_none()
+        self.copies.len() == 1 && self.copies[0].flips.is_empty() && self.copies[0].trunc.is_none() && self.copies[0].replace.is_none()
     }
 }
 
@@ -407,6 +409,9 @@ fn fate_to_json(f: &Fate) -> Value {
                 if let Some(t) = c.trunc {
                     m.insert("trunc".into(), json!(t));
                 }
+                if let Some(b) = &c.replace {
+                    m.insert("replace".into(), json!(hex(b)));
+                }
                 Value::Object(m)
             })
             .collect(),
@@ -422,6 +427,10 @@ fn copy_from_json(v: &Value) -> Result<FateCopy, String> {
             .map(|a| a.iter().filter_map(|x| x.as_u64()).map(|x| x as u32).collect())
             .unwrap_or_default(),
         trunc: v.get("trunc").and_then(|x| x.as_u64()).map(|x| x as u32),
+        replace: match v.get("replace").and_then(|x| x.as_str()) {
+            Some(h) => Some(unhex(h)?),
+            None => None,
+        },
     })
 }
 
